@@ -169,7 +169,9 @@ Relevant(c) ==
   /\ (c.op = "unbind" => (Len(c.shapes[1]) = 0 \/ ~InRange(c.a.dim, Len(c.shapes[1])) \/ c.a.t <= c.shapes[1][ND(c.a.dim, Len(c.shapes[1])) + 1]))
 
 \* ---------------------------------------------------------------------------
-Obs(c) == LET f == FormOf(c) IN ObsOf(c, f, Policy(c, f), Fill(c.pat, c.shapes), [x |-> 0])
+\* divisors use a pattern with few distinct denominators (sums over broadcast dims stay within 32-bit integers)
+FillOp(c) == IF c.op = "div" THEN <<Fill("A", c.shapes)[1], Fill("D", c.shapes)[2]>> ELSE Fill(c.pat, c.shapes)
+Obs(c) == LET f == FormOf(c) IN ObsOf(c, f, Policy(c, f), FillOp(c), [x |-> 0])
 
 \* ---------------------------------------------------------------------------
 Init == case \in {c \in Cases : Relevant(c)} /\ phase = "applied"
